@@ -18,7 +18,8 @@ ID = 'C07'
 LEVEL = 'exploration'
 ALPHABET = [0, 1, 3, 7]
 DTYPES = ['int32', 'int64', 'uint16', 'uint32']
-REQ_POOL = [[], [0], [1, 3], [7, 0], [5], [3, 5, 0], [7, 7, 1], [2, 9]]
+REQ_POOL = [[], [0], [1, 3], [7, 0], [5], [3, 5, 0], [7, 7, 1], [2, 9],
+            [65539, 1], [2 ** 32 + 7], [2 ** 32 + 5, 65536]]     # absent ids beyond the dtype's range
 RULE = (
     "(vec) exhaustive: every cluster vector over the gapped alphabet {0,1,3,7} up to length 6 "
     "(quick) / 9 (thorough) x dtypes int32/int64/uint16/uint32; each case exercises "
@@ -162,6 +163,13 @@ def _check_common(v, dt, reqs, lookups, neg=()):
         gm = must_return('grouped_mean', grouped_mean, vals, arr)
         exp = np.array([np.mean([vals[i] for i in range(n) if v[i] == c]) for c in present])
         same_array('grouped_mean', gm, exp, key='grouped_mean', dtype=False, tol=(1e-12, 1e-12))
+        # one (not the last) cluster carries values 1e12 times larger than the others
+        big = present[0]
+        vals3 = np.array([(1e12 if v[i] == big else 1.0) * (1 + (i * 7) % 11) for i in range(n)])
+        gm3 = must_return('grouped_mean', grouped_mean, vals3, arr)
+        exp3 = np.array([np.mean([vals3[i] for i in range(n) if v[i] == c]) for c in present])
+        same_array('grouped_mean (large dynamic range)', gm3, exp3, key='grouped_mean',
+                   dtype=False, tol=(1e-9, 0))
         vals2 = np.c_[vals, vals[::-1] * 3]
         gm2 = must_return('grouped_mean', grouped_mean, vals2, arr)
         exp2 = np.array([np.mean([vals2[i] for i in range(n) if v[i] == c], axis=0) for c in present])
